@@ -1070,3 +1070,76 @@ where
         }
     }
 }
+
+// =========================================================================================
+// C13  builder gate — arguments/resources can be changed exactly until the first submission; the next encoding
+//      reflects them (fill_submission reads the stored args: op.poll.not_started).
+// =========================================================================================
+//@waker_stubs
+#[kani::proof]
+#[kani::unwind(3)]
+fn c13_builder_gate() {
+    let mut s: SState = State::new(any_res(), args(kani::any()));
+    let st = any_st();
+    kani::assume(st != St::Dropped);
+    force_single(&s, st, (0, 0), None);
+    let v: u64 = kani::any();
+    let changed = match s.args_mut() {
+        Some(a) => {
+            a.v = v;
+            true
+        }
+        None => false,
+    };
+    assert!(changed == (st == St::NotStarted), "builder settings take effect only before the first poll");
+    assert!(s.resources_mut().is_some() == (st == St::NotStarted));
+    if changed {
+        assert!(s.args().v == v);
+    }
+    std::mem::forget(s);
+    kani::cover!(st == St::NotStarted, "not started");
+    kani::cover!(st == St::Running, "running");
+}
+
+/// Target = AsyncFd: the request carries IOSQE_FIXED_FILE exactly for direct descriptors (on top of the encoder's output)
+pub(crate) fn fill_fd(_t: &AsyncFd, r: &mut Res, a: &mut Args, s: &mut Submission) {
+    s.0.opcode = TEST_OPCODE;
+    s.0.len = r.marker;
+    s.0.__bindgen_anon_1 = libc::io_uring_sqe__bindgen_ty_1 { off: a.v };
+}
+pub(crate) fn map_ok_fd(_t: &AsyncFd, r: Res, ret: OpReturn) -> u32 {
+    std::mem::forget(r);
+    ret.1
+}
+pub(crate) fn fb_fd(_t: &AsyncFd, r: Res, _a: &mut Args, err: io::Error) -> io::Result<u32> {
+    std::mem::forget(r);
+    Err(err)
+}
+//@waker_stubs
+#[kani::proof]
+#[kani::unwind(3)]
+fn c13_fd_target_flags() {
+    let marker: u32 = kani::any();
+    let a: u64 = kani::any();
+    let mut s: SState = State::new(Res { marker, payload: kani::any() }, args(a));
+    let mut ring = FakeSq::<2>::new(0, 0, 0);
+    let subs = subs_of(ring.shared(2, false, false));
+    let direct: bool = kani::any();
+    let n: i32 = kani::any();
+    kani::assume(n >= 0);
+    let afd = ManuallyDrop::new(unsafe { AsyncFd::from_raw(n, if direct { crate::fd::Kind::Direct } else { crate::fd::Kind::File }, crate::verif_lib::sq_from((*subs).clone())) });
+    let w = env::waker(4);
+    let mut ctx = task::Context::from_waker(&w);
+    let r = poll(&*afd, &mut s, &mut ctx, fill_fd, map_ok_fd, fb_fd);
+    assert!(r.is_pending() && ring.tail.load(Ordering::SeqCst) == 1);
+    let mut e = zero_sqe();
+    e.0.opcode = TEST_OPCODE;
+    e.0.len = marker;
+    e.0.__bindgen_anon_1 = libc::io_uring_sqe__bindgen_ty_1 { off: a };
+    e.0.user_data = s.user_data();
+    e.0.flags = if direct { libc::IOSQE_FIXED_FILE } else { 0 };
+    assert!(sqe_bytes(&ring.sqes[0]) == sqe_bytes(&e), "FIXED_FILE iff the descriptor is direct; nothing else added");
+    std::mem::forget(s);
+    kani::cover!(direct, "direct");
+    kani::cover!(!direct, "regular");
+}
